@@ -496,6 +496,98 @@ def execute_cap(obl):
     return execute
 
 
+# =============================================================================================== queue-fronted targets
+def queued_strategy(tier, safe=False):
+    win = st.fixed_dictionaries({"a": st.integers(1, 30), "len": st.integers(1, 12), "kind": st.sampled_from(["crash", "pause"])})
+    arr = st.fixed_dictionaries({"t": st.integers(0, 50), "half": st.booleans(), "srv": st.integers(0, 1)})
+    return st.fixed_dictionaries({"conc": st.integers(1, 2), "svc": st.integers(1, 6), "wins": st.lists(win, min_size=1, max_size=2),
+                                  "arrivals": st.lists(arr, min_size=1, max_size=14), "safe": st.just(safe)})
+
+
+def execute_queued(case):
+    """A Server (queue + driver + worker behind one entity) is the crash/pause target; a second, identical Server is the bystander."""
+    from happysimulator import Entity, Event, Instant, Simulation
+    from happysimulator.components.server.server import Server
+    from happysimulator.distributions.constant import ConstantLatency
+    from happysimulator.faults import CrashNode, FaultSchedule, PauseNode
+    r = Result()
+    svc = max(1, case["svc"])
+    wins = []
+    for w in case["wins"]:
+        a = w["a"] * TICK
+        b = a + max(1, w["len"]) * TICK
+        if not any(a < y + TICK and x < b + TICK for (x, y, _) in wins):
+            wins.append((a, b, w["kind"]))
+
+    arrivals = []
+    first_start = min([a for (a, b, _) in wins] + [10**15])
+    last_end_ = max([b for (a, b, _) in wins] + [0])
+    for ar in case["arrivals"]:
+        t = ar["t"] * TICK + (TICK // 2 if ar["half"] else 0)
+        if case.get("safe") and ar["srv"] % 2 == 0 and t < last_end_ and t + (len(case["arrivals"]) + 1) * svc * TICK >= first_start:
+            t = last_end_ + t          # restricted domain: the target is idle whenever a window opens and nothing arrives inside one
+        arrivals.append((t, ar["srv"] % 2))
+    obl = "queued-safe" if case.get("safe") else "queued"
+
+    def run(with_faults):
+        got = {0: [], 1: []}
+
+        class Sink(Entity):
+            def __init__(self, i):
+                super().__init__(f"sink{i}")
+                self.i = i
+
+            def handle_event(self, event):
+                got[self.i].append((self.now.nanoseconds, event.context.get("metadata", {}).get("rid")))
+
+        sinks = [Sink(0), Sink(1)]
+        servers = [Server(f"srv{i}", concurrency=max(1, case["conc"]), service_time=ConstantLatency(svc / 512), downstream=sinks[i])
+                   for i in range(2)]
+        sched = FaultSchedule()
+        if with_faults:
+            for (a, b, kind) in wins:
+                sched.add(PauseNode("srv0", start=a / 1e9, end=b / 1e9) if kind == "pause" else CrashNode("srv0", at=a / 1e9, restart_at=b / 1e9))
+        sim = Simulation(entities=servers + sinks, fault_schedule=sched)
+        completed = []
+        for rid, (t, srv) in enumerate(arrivals):
+            ev = Event(time=Instant(t), event_type="req", target=servers[srv])
+            ev.context["metadata"]["rid"] = rid
+            sim.schedule(ev)
+        probe = SimProbe(sim, log=False, on_event=lambda e: completed.append((e.time.nanoseconds, servers[0].stats.requests_completed)))
+        probe.run()
+        return got, completed, probe
+    got, completed, probe = run(True)
+    base, _, _ = run(False)
+    if probe.spin_at is not None:
+        r.add(f"{P}/{obl}/spin", f"at {probe.spin_at} ns")
+        return r
+
+    def inside(t):
+        return any(a <= t < b for (a, b, _) in wins)
+    for (t, rid) in got[0]:
+        if inside(t):
+            r.add(f"{P}/{obl}/silence/emitted-downstream-during-outage", f"request {rid} left srv0 at {t} ns inside {wins}")
+            break
+    prev = 0
+    for (t, n) in completed:
+        if n > prev and inside(t):
+            r.add(f"{P}/{obl}/silence/completed-work-during-outage", f"srv0.requests_completed rose to {n} at {t} ns inside {wins}")
+            break
+        prev = n
+    served = {rid for (_, rid) in got[0]}
+    last_end = max(b for (a, b, _) in wins) if wins else 0
+    for rid, (t, srv) in enumerate(arrivals):
+        if srv == 0 and t >= last_end and rid not in served:
+            r.add(f"{P}/{obl}/liveness/never-served-after-restart", f"request {rid} arrived at {t} ns, after the last restart at {last_end} ns, and never left srv0")
+            break
+    if got[1] != base[1]:
+        r.add(f"{P}/{obl}/isolation/bystander-changed", f"srv1: {got[1][:4]} vs fault-free {base[1][:4]}")
+    busy = any(srv == 0 and any(t <= a < t + 3 * svc * TICK for (a, b, _) in wins) for (t, srv) in arrivals)
+    r.nontrivial = bool(wins) and (busy or bool(case.get("safe")))
+    r.labels += [l for l, c in (("work-near-crash", busy), ("pause", any(k == "pause" for (_, _, k) in wins))) if c]
+    return r
+
+
 NODE_RULE = ("2-4 scripted nodes, 0-5 crash / pause / permanent-crash windows (tick grid, non-overlapping per entity, some handles "
              "cancelled before the run), 1-18 pokes on and between ticks, each an immediate handler or a generator of up to 4 delays "
              "(so processes are in flight at crash instants); non-trivial = an active window exists and a process is in flight at a crash instant")
@@ -513,6 +605,14 @@ OBLIGATIONS = [
     Obligation("net", net_strategy(False), execute_net("net"), {"quick": 900, "thorough": 40000}, NET_RULE),
     Obligation("net-safe", net_strategy(True), execute_net("net-safe"), {"quick": 500, "thorough": 20000},
                "same with windows of one kind never overlapping (or touching) on a shared directed pair; non-trivial = an active window exists"),
+    Obligation("queued", queued_strategy, execute_queued, {"quick": 700, "thorough": 30000},
+               "a Server (queue + driver + worker adapter behind one entity; concurrency 1-2, constant service time 1-6 ticks, downstream sink) "
+               "under 1-2 crash/pause windows with up to 14 requests on and between ticks, next to an identical bystander Server; oracle: nothing "
+               "leaves the target and its completion counter does not move inside a window, every request that arrives after the last restart is "
+               "served, the bystander equals the fault-free run; non-trivial = a request is queued or in service when a window opens"),
+    Obligation("queued-safe", lambda tier: queued_strategy(tier, True), execute_queued, {"quick": 300, "thorough": 10000},
+               "same, but requests to the target are moved behind the last restart unless they are certainly finished before the first window "
+               "opens (the target is idle during every window): resumption after restart, no loss, bystander isolation; non-trivial = a window exists"),
     Obligation("capacity", cap_strategy(False), execute_cap("capacity"), {"quick": 900, "thorough": 40000}, CAP_RULE),
     Obligation("capacity-safe", cap_strategy(True), execute_cap("capacity-safe"), {"quick": 400, "thorough": 15000},
                "one window, every worker starts after its activation (no grant outstanding at the activation instant); non-trivial = an active window exists"),
